@@ -112,6 +112,7 @@ def make_case(ctx, g):
     twin_world = replay_ops(w.ops)
     twin = twin_world.conts[d]
     used = set()
+    first_text = {}
     for _ in range(g.rng.randint(2, 6)):
         name = g.choice(EXPORTERS)
         opts = None
@@ -139,6 +140,10 @@ def make_case(ctx, g):
         if name in TEXT or name == "rdf":
             out2 = run_export(g, doc, name, opts)
             out3 = run_export(g, twin, name, opts) if twin_world is not None else out2
+            if name != "rdf" and isinstance(out1, str):
+                first_text.setdefault(name, out1)
+                if first_text[name] != out1 and twin_world is not None:
+                    fails.append(Failure("oracle", None, "%s export differs from the same export made before other exporters ran" % name, case))
             if name == "rdf":
                 iso12 = rdf_isomorphic(out1[1], out2[1]) if (isinstance(out2, tuple) and out2[0] == "rdf") else False
                 iso13 = rdf_isomorphic(out1[1], out3[1]) if (isinstance(out3, tuple) and out3[0] == "rdf") else False
@@ -153,6 +158,13 @@ def make_case(ctx, g):
                     fails.append(Failure("oracle", None, "%s export called twice gives different text" % name, case))
                 elif out3 != out1:
                     fails.append(Failure("oracle", None, "%s export of an identically built document gives different text" % name, case))
+    # every text export once more, after all the other exporters have run
+    if twin_world is not None:
+        for name, t0 in first_text.items():
+            again = run_export(g, doc, name)
+            if again != t0:
+                fails.append(Failure("oracle", None, "%s export changed after other exporters (%s) ran" % (name, sorted(used)),
+                                     {"ops": list(w.ops), "export": name, "sequence": sorted(used)}))
     if twin_world is not None:
         w.obs(d)      # (after a mutation by an exporter the model's view of the document is no longer comparable)
     ctx.evaluations += 1
